@@ -361,7 +361,21 @@ def rule_choice_search(ctx: Ctx, rid="C03.BISECT-RIGHT", parts=("right", "clamp"
                 return False
             return True
         return False
-    ok = bool(cw) and all(prefix_sums(x.value) or (isinstance(x.value, ast.Name) and "prefix" not in parts) for x in cw) and \
+    def buffer_prefix(e):
+        """cum_weights = BUF where this function fills BUF[:] = accumulate(weights) (a reused buffer)."""
+        if not isinstance(e, ast.Name):
+            return False
+        fills = [a for a in walk_no_nested(fn) if isinstance(a, ast.Assign) and any(
+            isinstance(t, ast.Subscript) and dotted(t.value) == e.id and isinstance(t.slice, ast.Slice)
+            and t.slice.lower is None and t.slice.upper is None for t in a.targets)]
+        return bool(fills) and all(norm(a.value) in ("accumulate(weights)", "itertools.accumulate(weights)", "list(accumulate(weights))") for a in fills)
+    if cw and all(buffer_prefix(x.value) for x in cw):
+        ctx.rep.ok(rid.split(".")[0] + ".PREFIX-SUMS", con + "[cum_weights]", "cum_weights = a buffer refilled with accumulate(weights): prefix sums "
+                   "of the weights in declared order", site=site)
+        cw_ok_buffer = True
+    else:
+        cw_ok_buffer = False
+    ok = cw_ok_buffer or bool(cw) and all(prefix_sums(x.value) or (isinstance(x.value, ast.Name) and "prefix" not in parts) for x in cw) and \
         (len(cw) == 1 or all(prefix_sums(x.value) for x in cw))
     ctx.rep.check(ok, rid.split(".")[0] + ".PREFIX-SUMS", con + "[cum_weights]",
                   "cum_weights = list(accumulate(weights)): prefix sums of the weights in declared order" if ok else
@@ -504,7 +518,10 @@ CACHE_DECORATORS = {"lru_cache", "functools.lru_cache", "cache", "functools.cach
                     "memoize", "cachetools.cached"}
 
 
-def rule_no_shared_state(ctx: Ctx, rid="C17.NO-SHARED-WRITES", modules=None, only=None, floor=None):
+def rule_no_shared_state(ctx: Ctx, rid="C17.NO-SHARED-WRITES", modules=None, only=None, floor=None, accumulating_only=False):
+    """accumulating_only (C11): a shared object that the code itself empties before each use (x.clear(), x = [],
+    x[:] = ...) does not carry anything from one compilation to the next when calls do not overlap; only objects
+    that are filled and never reset are cross-evaluator state.  (C17 flags both: overlapping calls see each other.)"""
     """Own modules: no function writes module globals, class attributes, or mutates a
     module-level / class-level mutable object; no caching decorator keeps per-process state."""
     nfun = 0
@@ -523,9 +540,26 @@ def rule_no_shared_state(ctx: Ctx, rid="C17.NO-SHARED-WRITES", modules=None, onl
                     for t in tg:
                         if isinstance(t, ast.Name) and mut:
                             class_mut[(cn, t.id)] = st
+        def is_reset(name):
+            for x in ast.walk(m.tree):
+                if isinstance(x, ast.Call) and isinstance(x.func, ast.Attribute) and x.func.attr == "clear" and (dotted(x.func.value) or "").split(".")[-1] == name:
+                    return True
+                if isinstance(x, ast.Assign):
+                    for t in x.targets:
+                        if isinstance(t, ast.Subscript) and isinstance(t.slice, ast.Slice) and (dotted(t.value) or "").split(".")[-1] == name:
+                            return True
+                        if isinstance(t, ast.Attribute) and t.attr == name and isinstance(x.value, (ast.List, ast.Dict, ast.Set, ast.Call)):
+                            return True
+                if isinstance(x, ast.Delete):
+                    for t in x.targets:
+                        if isinstance(t, ast.Subscript) and (dotted(t.value) or "").split(".")[-1] == name:
+                            return True
+            return False
         for (cn, an), st in class_mut.items():
             # sly Lexer/Parser `tokens = {...}` sets are build-time tables read by the metaclass
             if an in ("tokens", "literals", "precedence"):
+                continue
+            if accumulating_only and is_reset(an):
                 continue
             ctx.rep.bad(rid, f"{m.rel}:{cn}.{an}", f"class-level mutable default `{norm(st)[:60]}` is one object shared by every "
                         "instance (and thread)", site=m.site(st), text=norm(st)[:100])
@@ -565,6 +599,8 @@ def rule_no_shared_state(ctx: Ctx, rid="C17.NO-SHARED-WRITES", modules=None, onl
                                         site=m.site(n), text=f"module mutate {norm(n)[:100]}")
                 if isinstance(n, ast.Call) and isinstance(n.func, ast.Attribute) and n.func.attr in flow.MUTATORS:
                     base = dotted(n.func.value)
+                    if accumulating_only and base and is_reset(base.split(".")[-1]):
+                        continue
                     if base and base.split(".")[0] in mm and base.split(".")[0] not in _locals(fn) and mm[base.split(".")[0]][1]:
                         ctx.rep.bad(rid, q, f"mutates the module-level object `{base}` at run time ({norm(n)[:60]})",
                                     site=m.site(n), text=f"module mutate {norm(n)[:100]}")
@@ -1222,7 +1258,9 @@ def rule_installed_function(ctx: Ctx, rid="C11.INSTALLED-FUNCTION", strict=True,
     return installs
 
 
-def rule_call_forwards(ctx: Ctx, rid="C09.CALL-FORWARDS", publish=False, no_try=False):
+def rule_call_forwards(ctx: Ctx, rid="C09.CALL-FORWARDS", publish=False, no_try=False, aspects=("result", "args")):
+    """result: what a call returns is the compiled function's result and nothing before it touches evaluator state (no memo);
+    args: the caller's fields reach the compiled function unchanged."""
     m, c = _evaluator(ctx)
     call = m.get_method(c, "__call__")
     a = call.args
@@ -1255,6 +1293,15 @@ def rule_call_forwards(ctx: Ctx, rid="C09.CALL-FORWARDS", publish=False, no_try=
             len(v.keywords) == 1 and v.keywords[0].arg is None and dotted(v.keywords[0].value) == kw
         others = [s for s in p.stmts() if s is not p.exit_node and not (isinstance(s, ast.Expr) and isinstance(s.value, ast.Constant))
                   and s not in loads.values()]
+        touches_self = [s for s in others if any((isinstance(x, ast.Attribute) and dotted(x.value) == "self") or
+                                                 (isinstance(x, ast.Name) and x.id == "self") for x in ast.walk(s))]
+        same_callee = isinstance(v, ast.Call) and callee and (callee.startswith("self.") or via_local) and not v.args
+        if "args" not in aspects:
+            # only the result aspect: local reshaping of the arguments is not this property's business
+            direct = bool(same_callee)
+            others = touches_self
+        elif "result" not in aspects:
+            others = [s for s in others if s not in touches_self]
         ctx.rep.check(direct and not others, rid, f"{EV}:ExperimentEvaluator.__call__[{norm(p.exit_node)[:50]}]",
                       f"returns {norm(v)[:50]}: the installed function applied to the caller's fields, nothing else" if direct and not others else
                       f"a call can return `{norm(v)[:60] if v is not None else None}` after {len(others)} other statement(s) "
@@ -1381,9 +1428,10 @@ def rule_args_unmodified(ctx: Ctx, rid="C16.ARGS-UNMODIFIED"):
             if rb is None or rb.lineno > st.lineno:
                 probs.append((st, f"{nm}.{st.func.attr}() mutates the caller's argument"))
     for nm, st in rebinding.items():
-        fresh = isinstance(st.value, ast.Call) and not (isinstance(st.value.func, ast.Attribute) and dotted(st.value.func.value) in aliases)
+        fresh = (isinstance(st.value, ast.Call) and not (isinstance(st.value.func, ast.Attribute) and dotted(st.value.func.value) in aliases)) \
+            or (isinstance(st.value, ast.Name) and st.value.id not in aliases)      # some other object, not the caller's
         ctx.rep.check(fresh, rid, f"{BIN}:deterministic_choice[{nm} :=]",
-                      f"{nm} is rebound to the result of a call ({norm(st.value)[:40]}), the caller's object is untouched" if fresh else
+                      f"{nm} is rebound to {norm(st.value)[:40]} (not the caller's object), the caller's object is untouched" if fresh else
                       f"{nm} is rebound to {norm(st.value)[:50]}, which may alias the caller's object", site=m.site(st), text=norm(st))
     con = f"{BIN}:deterministic_choice"
     if probs:
@@ -1403,7 +1451,21 @@ def rule_returns_element(ctx: Ctx, rid="C16.RETURNS-ELEMENT"):
         v = r.value
         ok = False
         why = ""
-        if isinstance(v, ast.Subscript) and dotted(v.value) == pop and not isinstance(v.slice, ast.Slice):
+        elem_vars = set()
+        for lp in [x for x in walk_no_nested(fn) if isinstance(x, ast.For)]:
+            it, tg = lp.iter, lp.target
+            if isinstance(it, ast.Name) and it.id == pop and isinstance(tg, ast.Name):
+                elem_vars.add(tg.id)
+            if isinstance(it, ast.Call) and dotted(it.func) == "zip" and isinstance(tg, ast.Tuple):
+                for a_, t_ in zip(it.args, tg.elts):
+                    if dotted(a_) == pop and isinstance(t_, ast.Name):
+                        elem_vars.add(t_.id)
+            if isinstance(it, ast.Call) and dotted(it.func) == "enumerate" and it.args and dotted(it.args[0]) == pop \
+                    and isinstance(tg, ast.Tuple) and len(tg.elts) == 2 and isinstance(tg.elts[1], ast.Name):
+                elem_vars.add(tg.elts[1].id)
+        if isinstance(v, ast.Name) and v.id in elem_vars:
+            ok, why = True, f"a loop variable ranging over {pop}"
+        elif isinstance(v, ast.Subscript) and dotted(v.value) == pop and not isinstance(v.slice, ast.Slice):
             ok, why = True, f"an element read of {pop}"
         elif isinstance(v, ast.Subscript) and isinstance(v.value, ast.Call) and dotted(v.value.func) in rnd | {"random.choices"}:
             c = v.value
